@@ -259,8 +259,6 @@ def check_call(v: Verdict, what, desc, arg, fn, allowed_ids, hist, finding=None)
     try:
         res = fn(arg)
         raised = None
-    except RecursionError:
-        return
     except Exception as e:
         res, raised = None, e
     hist["calls"] += 1
@@ -346,6 +344,7 @@ def check_c11(v: Verdict, n_worlds: int):
         tagged_union_battery(v, rng, w, hist)
     typeddict_override_battery(v, rng, hist, n_worlds)
     string_annotation_battery(v, hist)
+    recursive_typeddict_battery(v, hist)
     v.coverage["input_distribution"] = hist
 
 
@@ -534,3 +533,81 @@ def string_annotation_battery(v: Verdict, hist):
                 finally:
                     sys.modules.pop(modname, None)
     hist["string_annotation_calls"] = n
+
+
+# ------------------------------------------------------------------------------------ recursive TypedDicts
+
+RTD_SRC = '''
+import enum
+from typing import Dict, List, Optional, TypedDict
+from typing_extensions import NotRequired
+
+class RKind(enum.Enum):
+    A = "a"
+
+class Tree(TypedDict):
+    name: str
+    children: List["Tree"]
+
+class Chain(TypedDict):
+    n: int
+    next: Optional["Chain"]
+
+class Shelf(TypedDict):
+    label: str
+    sub: Dict[str, "Shelf"]
+
+class Ping(TypedDict):
+    x: int
+    pongs: List["Pong"]
+
+class Pong(TypedDict):
+    y: str
+    ping: NotRequired[Ping]
+
+class Linked(TypedDict):
+    kind: RKind
+    kids: List["Linked"]
+'''
+
+
+def recursive_typeddict_battery(v: Verdict, hist):
+    """TypedDicts that lead back to themselves (through List / Optional / Dict / a second TypedDict), all other keys of pass-through
+    types: they are NOT "TypedDicts with nothing to convert" -- every level is a mapping holding containers, so the result must be new
+    dicts and new lists at every depth, in both directions, whichever class of a mutually recursive pair is used first."""
+    import sys
+    import types as _types
+    mod = _types.ModuleType("alias_rtd")
+    sys.modules[mod.__name__] = mod
+    exec(compile(RTD_SRC, mod.__name__, "exec", dont_inherit=True), mod.__dict__)      # (this module's `from __future__ import annotations` must not leak in)
+    A = mod.RKind.A
+    vals = {
+        "Tree": lambda: {"name": "r", "children": [{"name": "c1", "children": []}, {"name": "c2", "children": [{"name": "g", "children": []}]}]},
+        "Chain": lambda: {"n": 1, "next": {"n": 2, "next": None}},
+        "Shelf": lambda: {"label": "top", "sub": {"a": {"label": "in", "sub": {}}}},
+        "Ping": lambda: {"x": 1, "pongs": [{"y": "p"}, {"y": "q", "ping": {"x": 2, "pongs": []}}]},
+        "Pong": lambda: {"y": "p", "ping": {"x": 2, "pongs": [{"y": "deep"}]}},
+        "Linked": lambda: {"kind": A, "kids": [{"kind": A, "kids": []}]},
+    }
+    hist["recursive_typeddict_calls"] = 0
+    orders = [["Tree"], ["Chain"], ["Shelf"], ["Ping", "Pong"], ["Pong", "Ping"], ["Linked"]]
+    for order in orders:
+        for dv in (True, False):
+            for first in ("unstructure", "structure"):
+                conv = Converter(detailed_validation=dv)
+                for name in order:
+                    T_ = getattr(mod, name)
+                    x = vals[name]()
+                    desc = {"lane": "ALIAS/C11 recursive TypedDicts", "type": name, "definitions": RTD_SRC.strip(), "detailed_validation": dv,
+                            "first_use_order": order, "first_operation": first}
+                    ops = ["unstructure", "structure"] if first == "unstructure" else ["structure", "unstructure"]
+                    for op in ops:
+                        hist["recursive_typeddict_calls"] += 1
+                        if op == "unstructure":
+                            check_call(v, "unstructure", {**desc, "op": "unstructure", "input": repr(x)[:300]}, x,
+                                       lambda a: conv.unstructure(a, unstructure_as=T_), {}, hist)
+                        else:
+                            payload = Converter().unstructure(vals[name](), unstructure_as=T_)
+                            check_call(v, "structure", {**desc, "op": "structure", "input": repr(payload)[:300]}, payload,
+                                       lambda a: conv.structure(a, T_), {}, hist)
+    sys.modules.pop(mod.__name__, None)
